@@ -585,7 +585,8 @@ R10_FIXED = [
 
 def gen_composed(rng, kind):
     """kind 'logic': boolean Vars, & | ^ ~, any settings, all truth assignments.
-    kind 'neg': signed integer Vars, + - * // and unary -, int literals, promotion on, INT_MIN among the values."""
+    kind 'neg': signed integer Vars, + - * // and unary -, int literals (constant promotion on) or none (off), promotion on,
+    INT_MIN among the values."""
     steps, produced = [], 0
     if kind == "logic":
         nv = rng.randrange(2, 4)
@@ -599,7 +600,7 @@ def gen_composed(rng, kind):
         for d in dts:
             lo = -(2 ** (8 * 2 ** d - 1))
             vals.append([rng.choice([lo, -lo - 1] + H_VALUES * 2) for _ in range(6)])
-        st = [True, True]
+        st = [True, rng.random() < 0.6]   # constant promotion off: no literals, unary minus must still work
 
     def ref(divisor=False, avoid=None):
         for _ in range(20):
@@ -623,7 +624,7 @@ def gen_composed(rng, kind):
                 op = rng.choice(["add", "sub", "mul", "floordiv", "neg", "neg"])
                 if op == "neg":
                     stp = {"op": op, "a": ref(), "b": None}
-                elif rng.random() < 0.3:
+                elif st[1] and rng.random() < 0.3:
                     lit = ["int", rng.choice([2, 3, 7] if op == "floordiv" else [-3, 2, 3, 100])]
                     # a literal divisor is never 0 / -1; a literal dividend meets a Var (never 0 / -1 among the values)
                     stp = {"op": op, "a": ref(), "b": lit} if rng.random() < 0.5 else {"op": op, "a": lit, "b": ref(divisor=op == "floordiv")}
@@ -639,7 +640,7 @@ def gen_composed(rng, kind):
         blocks = [{"st": st, "pre": mk(n)}]
     else:
         k = rng.randrange(1, n)
-        st2 = [rng.random() < 0.5, rng.random() < 0.5] if kind == "logic" else [True, True]
+        st2 = [rng.random() < 0.5, rng.random() < 0.5] if kind == "logic" else list(st)
         pre = mk(k)
         inner = {"st": st2, "pre": mk(max(1, (n - k) // 2))}
         blocks = [{"st": st, "pre": pre, "inner": inner, "post": mk(max(0, n - k - max(1, (n - k) // 2)))}]
